@@ -60,6 +60,8 @@ fn sym_pattern(n: usize) -> (u8, usize) {
 pub fn h_iter(n: usize, kind: u8, forget: bool, tab: [u8; 8]) {
     let st = sym_state(n, 40);
     let mut c = build(n, &st.heaps, st.max, tab, CAP_IT);
+    // growth cut: the table (capacity 7) cannot fill with n <= 4 entries plus one insertion
+    tm::expect_no_grow(true);
     let (pat, steps) = sym_pattern(n);
     let mut dq = Deque { lo: 0, hi: n };
     let b = n + 2;
